@@ -3,6 +3,14 @@ unresolved trait-method calls expanded to every workspace impl of that method.""
 from collections import defaultdict
 
 
+# a crate's own code can only name impls defined in itself or upstream of it: an unresolved trait-method call in crate X is
+# expanded to the impls of X and its workspace dependencies (impls of downstream crates are entry points of their own).
+UPSTREAM = {
+    "scylla_cql_core": {"scylla_cql_core"},
+    "scylla_cql": {"scylla_cql", "scylla_cql_core"},
+}
+
+
 class CallGraph:
     def __init__(self, facts, crates=None):
         self.facts = facts
@@ -45,8 +53,9 @@ class CallGraph:
                         out.add(c["def"])
                     if "res" not in c or c.get("rk") == "virtual":
                         # unresolved trait method: every workspace impl
+                        allowed = UPSTREAM.get(b.crate)
                         for impl in self.trait_impls.get(c["def"], ()):
-                            if impl in self.facts.bodies:
+                            if impl in self.facts.bodies and (allowed is None or self.facts.bodies.raw[impl][2] in allowed):
                                 out.add(impl)
         return out
 
